@@ -407,13 +407,18 @@ func genChain(c SCfg, now time.Time) vk.Chain {
 	if s == 0 {
 		s = 1
 	}
-	// c[S] is `age` old; earlier headers are `step` apart, later ones 1s apart
+	// c[S] is `age` old; earlier headers are `step` apart, later ones 1s apart (closer when the chain
+	// is long, so that with the default 5s age no header lies beyond the clock-drift allowance)
+	later := time.Second
+	if c.HeadAgeS == 0 && uint64(c.N) > s+14 {
+		later = 12 * time.Second / time.Duration(uint64(c.N)-s)
+	}
 	steps := make([]time.Duration, c.N)
 	for i := range steps {
 		if uint64(i+1) < s {
 			steps[i] = step
 		} else {
-			steps[i] = time.Second
+			steps[i] = later
 		}
 	}
 	start := now.Add(-age).Add(-time.Duration(s-1) * step)
